@@ -224,9 +224,12 @@ func vf03Build(p vfParrot, serverName string, seed uint64, cache ClientSessionCa
 	return vf03BuildV(p, serverName, seed, cache, [2]uint16{})
 }
 
-func vf03BuildV(p vfParrot, serverName string, seed uint64, cache ClientSessionCache, vers [2]uint16) (*UConn, error) {
+func vf03BuildV(p vfParrot, serverName string, seed uint64, cache ClientSessionCache, vers [2]uint16, mods ...func(*Config)) (*UConn, error) {
 	cfg := vfClientConfig(serverName)
 	cfg.MinVersion, cfg.MaxVersion = vers[0], vers[1]
+	for _, m := range mods {
+		m(cfg)
+	}
 	if serverName == "" {
 		cfg.InsecureSkipVerify = true
 	}
@@ -306,7 +309,28 @@ func TestVerifC03ParrotMatchesSpec(t *testing.T) {
 			cache = NewLRUClientSessionCache(4)
 		}
 		cv := rapid.SampledFrom(vf03CfgVers).Draw(rt, "config_versions")
-		uc, err := vf03BuildV(p, name, rapid.Uint64().Draw(rt, "rand"), cache, cv)
+		// the caller's Config as the connection finds it: an application-level NextProtos wish list, or the same *Config
+		// used before by a connection with another fingerprint (UClient does not clone it, and building a hello writes
+		// the spec's ALPN list and version bounds into it): the parrot's hello is the spec's all the same
+		var mod func(*Config)
+		switch rapid.IntRange(0, 3).Draw(rt, "config_history") {
+		case 0:
+			np := rapid.SampledFrom([][]string{{"http/1.1"}, {"h2"}, {"vf-proto", "h2"}, {"h3"}, {}}).Draw(rt, "cfg_nextprotos")
+			mod = func(c *Config) { c.NextProtos = np }
+			st.Class("config:NextProtos-set-by-application")
+		case 1:
+			prev := vfGenParrot(rt, "previous_parrot")
+			mod = func(c *Config) {
+				cp0, _ := vfPipe()
+				defer cp0.Close()
+				c.OmitEmptyPsk = true
+				UClient(cp0, c, prev.ID).BuildHandshakeState()
+			}
+			st.Class("config:used-before-by-another-parrot")
+		default:
+			mod = func(*Config) {}
+		}
+		uc, err := vf03BuildV(p, name, rapid.Uint64().Draw(rt, "rand"), cache, cv, mod)
 		st.Eval()
 		st.Class("sni:" + kind)
 		st.Class(fmt.Sprintf("config-versions=%04x..%04x", cv[0], cv[1]))
